@@ -262,7 +262,7 @@ func (w *Worker) runPath(prefix []Decision) {
 		}
 	case "assume", "infeasible", "exhausted":
 		w.st.pathsAssume++
-	case "abort":
+	case "abort", "stopped":
 		// the exploration was stopped (budget / grace period): the run reports that the bound was not exhausted
 		w.st.pathsAssume++
 	case "cut":
